@@ -28,6 +28,7 @@ class ScriptedServer:
         self.behaviour = behaviour
         self.tls = tls
         self.conns = []
+        self.cert_queue = []      # certificates for the next connections (then self.cert)
         sim.net.register_raw_listener(host, port, self.accept)
 
     def accept(self, ep):
@@ -38,11 +39,12 @@ class ScriptedServer:
             kw["reader"] = "never"
         if beh.get("pause") is not None:
             kw["read_pause_until"] = self.sim.net.now + beh["pause"]
+        cert = self.cert_queue.pop(0) if self.cert_queue else self.cert
         peer = RawPeer(self.sim.net, ep, beh.get("script", [("wait_line",), ("stall",)]),
-                       tls_ctx=fx.server_ctx(self.cert) if self.tls else None, server_side=True,
+                       tls_ctx=fx.server_ctx(cert) if self.tls else None, server_side=True,
                        polite_close=beh.get("polite_close", True),
                        name=f"{self.host}:{self.port}#{idx}", keep_cipher=True, **kw)
-        peer.cert_presented = self.cert
+        peer.cert_presented = cert
         peer.t_accept = self.sim.net.now
         peer.gseq_accept = self.sim.net.gseq
         self.conns.append(peer)
